@@ -3,10 +3,12 @@
 Nonlinear real arithmetic with uninterpreted transcendental functions is where z3/cvc5 answer
 `unknown` on *invalid* obligations (they cannot build the model).  For those, the VC is evaluated
 on random concrete assignments with the uninterpreted functions interpreted by the real libm
-functions (which satisfy the assumed axioms).  A point where every hypothesis holds and the goal is
-false by a clear margin is a counter-example to the VC; it is reported as `refuted` with
-backend "numeric" and -- like every refutation -- goes on to native replay.  A numeric failure to
-find such a point proves nothing (the obligation stays `undecided`).
+functions (which satisfy the assumed axioms).  Constants that the hypotheses *define*
+(`k == term`, rounding/floor witnesses `|n - t| <= 1/2`) are computed rather than sampled; array
+reads get consistent pseudo-random contents.  A point where every hypothesis holds and the goal is
+false by a clear margin is a counter-example to the VC; it is reported as `refuted` with backend
+"numeric" and -- like every refutation -- goes on to native replay.  Failing to find such a point
+proves nothing (the obligation stays `undecided`).
 """
 from __future__ import annotations
 
@@ -21,14 +23,24 @@ FUNCS = {
     "sqrt": lambda x: math.sqrt(x) if x >= 0 else float("nan"),
     "acos": lambda x: math.acos(max(-1.0, min(1.0, x))) if -1.0000001 <= x <= 1.0000001 else float("nan"),
     "atan2": math.atan2,
-    "roundf": lambda x: float(math.floor(x + 0.5)) if x >= 0 else -float(math.floor(-x + 0.5)),
-    "floorf": lambda x: float(math.floor(x)),
     "fabs": abs,
 }
 
 
 class Fail(Exception):
     pass
+
+
+def _flatten(hyps):
+    out = []
+    todo = list(hyps)
+    while todo:
+        h = todo.pop()
+        if z3.is_and(h):
+            todo.extend(h.children())
+        else:
+            out.append(h)
+    return out
 
 
 def _consts(exprs):
@@ -45,122 +57,240 @@ def _consts(exprs):
     return out
 
 
-def ev(e, env, cache):
-    k = e.get_id()
-    if k in cache:
-        return cache[k]
-    r = _ev(e, env, cache)
-    cache[k] = r
-    return r
+def _is_uconst(e):
+    return z3.is_const(e) and e.decl().kind() == z3.Z3_OP_UNINTERPRETED and not z3.is_array(e)
 
 
-def _ev(e, env, cache):
-    if z3.is_int_value(e):
-        return float(e.as_long())
-    if z3.is_rational_value(e):
-        return e.numerator_as_long() / e.denominator_as_long()
-    if z3.is_true(e):
-        return 1.0
-    if z3.is_false(e):
-        return -1.0
-    d = e.decl()
-    kind = d.kind()
-    ch = e.children()
-    if kind == z3.Z3_OP_UNINTERPRETED:
-        name = d.name()
-        if not ch:
-            if name not in env:
-                raise Fail("free " + name)
-            return env[name]
-        f = FUNCS.get(name)
-        if f is None:
-            raise Fail("uninterpreted " + name)
-        v = f(*[ev(c, env, cache) for c in ch])
-        if v != v:
-            raise Fail("nan")
-        return v
-    a = [ev(c, env, cache) for c in ch] if kind not in (z3.Z3_OP_ITE,) else None
-    if kind == z3.Z3_OP_ADD:
-        return sum(a)
-    if kind == z3.Z3_OP_SUB:
-        r = a[0]
-        for x in a[1:]:
-            r -= x
+def _toreal_const(e):
+    """ToReal(n) with n an uninterpreted Int constant -> n's name"""
+    if z3.is_app_of(e, z3.Z3_OP_TO_REAL) and _is_uconst(e.arg(0)):
+        return e.arg(0).decl().name()
+    return None
+
+
+def _find_defs(atoms):
+    """constants defined by the hypotheses: name -> ('eq', term) | ('round', term) | ('floor', term)"""
+    defs = {}
+    for a in atoms:
+        if z3.is_eq(a):
+            l, r = a.children()
+            for k, e in ((l, r), (r, l)):
+                if _is_uconst(k) and k.decl().name() not in defs and k.decl().name() not in _consts([e]):
+                    defs[k.decl().name()] = ("eq", e)
+                    break
+    for a in atoms:
+        # k * e == c   (e.g. recip * diagonal == 1)  ->  k := c / e
+        if z3.is_eq(a):
+            l, r = a.children()
+            if z3.is_app_of(l, z3.Z3_OP_MUL) and l.num_args() == 2 and (z3.is_rational_value(r) or z3.is_int_value(r)):
+                for k, e in ((l.arg(0), l.arg(1)), (l.arg(1), l.arg(0))):
+                    if _is_uconst(k) and k.decl().name() not in defs and k.decl().name() not in _consts([e]):
+                        defs[k.decl().name()] = ("eq", r / e)
+                        break
+    for a in atoms:
+        if z3.is_le(a) or z3.is_ge(a):
+            l, r = a.children()
+            if z3.is_ge(a):
+                l, r = r, l
+            # ToReal(n) - t <= 1/2 : rounding witness
+            if z3.is_app_of(l, z3.Z3_OP_SUB) and l.num_args() == 2 and z3.is_rational_value(r) \
+                    and r.numerator_as_long() == 1 and r.denominator_as_long() == 2:
+                n = _toreal_const(l.arg(0))
+                if n and n not in defs:
+                    defs[n] = ("round", l.arg(1))
+                    continue
+            # ToReal(n) <= t (with t < ToReal(n) + 1) : floor witness
+            n = _toreal_const(l)
+            if n and n not in defs:
+                defs[n] = ("floor", r)
+    return defs
+
+
+class Evaluator:
+    def __init__(self, env, defs, rng):
+        self.env = env
+        self.defs = defs
+        self.cache = {}
+        self.arrays = {}
+        self.rng_seed = rng.random()
+        self.busy = set()
+
+    def const(self, name, e):
+        if name in self.env:
+            return self.env[name]
+        if name in self.defs:
+            if name in self.busy:
+                raise Fail("cyclic definition")
+            self.busy.add(name)
+            kind, t = self.defs[name]
+            v = self.ev(t)
+            self.busy.discard(name)
+            if kind == "round":
+                v = float(math.floor(v + 0.5))
+            elif kind == "floor":
+                v = float(math.floor(v))
+            elif z3.is_int(e):
+                v = float(round(v))
+            self.env[name] = v
+            return v
+        raise Fail("free " + name)
+
+    def array(self, a, idx):
+        # Store chains
+        while z3.is_app_of(a, z3.Z3_OP_STORE):
+            base, i, v = a.children()
+            if abs(self.ev(i) - idx) < 1e-9:
+                return self.ev(v)
+            a = base
+        if z3.is_const(a):
+            key = (a.decl().name(), round(idx))
+            if key not in self.arrays:
+                r = random.Random(hash((key, self.rng_seed)))
+                rng_sort = a.sort().range()
+                self.arrays[key] = float(r.randint(0, 3)) if rng_sort == z3.IntSort() else r.uniform(-4.0, 4.0)
+            return self.arrays[key]
+        if z3.is_K(a):
+            return self.ev(a.arg(0))
+        raise Fail("array term")
+
+    def pin(self, atoms):
+        """array cells constrained by the hypotheses (cell == c, cell > 0, ...) are set accordingly"""
+        for a in atoms:
+            try:
+                if z3.is_eq(a) or z3.is_gt(a) or z3.is_ge(a) or z3.is_lt(a) or z3.is_le(a):
+                    l, r = a.children()
+                    for cell, other, flip in ((l, r, False), (r, l, True)):
+                        if z3.is_app_of(cell, z3.Z3_OP_SELECT) and z3.is_const(cell.arg(0)) and (z3.is_rational_value(other) or z3.is_int_value(other)):
+                            idx = round(self.ev(cell.arg(1)))
+                            key = (cell.arg(0).decl().name(), idx)
+                            c = self.ev(other)
+                            cur = self.array(cell.arg(0), idx)
+                            gt = (z3.is_gt(a) or z3.is_ge(a)) != flip
+                            if z3.is_eq(a):
+                                self.arrays[key] = c
+                            elif gt and not cur > c:
+                                self.arrays[key] = c + abs(cur) + 0.5
+                            elif (not gt) and not cur < c:
+                                self.arrays[key] = c - abs(cur) - 0.5
+                            self.cache.clear()
+                            break
+            except Fail:
+                continue
+
+    def ev(self, e):
+        k = e.get_id()
+        if k in self.cache:
+            return self.cache[k]
+        r = self._ev(e)
+        self.cache[k] = r
         return r
-    if kind == z3.Z3_OP_UMINUS:
-        return -a[0]
-    if kind == z3.Z3_OP_MUL:
-        r = 1.0
-        for x in a:
-            r *= x
-        return r
-    if kind in (z3.Z3_OP_DIV, z3.Z3_OP_IDIV):
-        if a[1] == 0:
-            raise Fail("div0")
-        if kind == z3.Z3_OP_IDIV:
-            q = math.floor(a[0] / abs(a[1]))
-            return float(q if a[1] > 0 else -q)
-        return a[0] / a[1]
-    if kind == z3.Z3_OP_MOD:
-        if a[1] == 0:
-            raise Fail("mod0")
-        return float(a[0] - abs(a[1]) * math.floor(a[0] / abs(a[1])))
-    if kind == z3.Z3_OP_TO_REAL:
-        return a[0]
-    if kind == z3.Z3_OP_TO_INT:
-        return float(math.floor(a[0]))
-    if kind == z3.Z3_OP_POWER:
-        return a[0] ** a[1]
-    if kind == z3.Z3_OP_ITE:
-        c = ev(ch[0], env, cache)
-        return ev(ch[1], env, cache) if c > 0 else ev(ch[2], env, cache)
-    # booleans as signed margins (positive = true)
-    if kind == z3.Z3_OP_AND:
-        return min(a) if a else 1.0
-    if kind == z3.Z3_OP_OR:
-        return max(a) if a else -1.0
-    if kind == z3.Z3_OP_NOT:
-        return -a[0]
-    if kind == z3.Z3_OP_IMPLIES:
-        return max(-a[0], a[1])
-    if kind in (z3.Z3_OP_LE, z3.Z3_OP_LT):
-        m = a[1] - a[0]
-        s = max(1.0, abs(a[0]), abs(a[1]))
-        if kind == z3.Z3_OP_LT and m == 0:
-            return -1e-12
-        return m / s
-    if kind in (z3.Z3_OP_GE, z3.Z3_OP_GT):
-        m = a[0] - a[1]
-        s = max(1.0, abs(a[0]), abs(a[1]))
-        if kind == z3.Z3_OP_GT and m == 0:
-            return -1e-12
-        return m / s
-    if kind == z3.Z3_OP_EQ:
-        if z3.is_bool(ch[0]):
-            return min(abs(a[0]), abs(a[1])) if (a[0] > 0) == (a[1] > 0) else -min(abs(a[0]), abs(a[1]))
-        s = max(1.0, abs(a[0]), abs(a[1]))
-        return 1e-7 - abs(a[0] - a[1]) / s
-    if kind == z3.Z3_OP_DISTINCT:
-        s = max(1.0, abs(a[0]), abs(a[1]))
-        return abs(a[0] - a[1]) / s - 1e-7
-    if kind == z3.Z3_OP_XOR:
-        return -(min(abs(a[0]), abs(a[1])) if (a[0] > 0) == (a[1] > 0) else -min(abs(a[0]), abs(a[1])))
-    raise Fail(f"op {d.name()}")
+
+    def _ev(self, e):
+        if z3.is_int_value(e):
+            return float(e.as_long())
+        if z3.is_rational_value(e):
+            return e.numerator_as_long() / e.denominator_as_long()
+        if z3.is_true(e):
+            return 1.0
+        if z3.is_false(e):
+            return -1.0
+        d = e.decl()
+        kind = d.kind()
+        ch = e.children()
+        if kind == z3.Z3_OP_UNINTERPRETED:
+            name = d.name()
+            if not ch:
+                return self.const(name, e)
+            f = FUNCS.get(name)
+            if f is None:
+                raise Fail("uninterpreted " + name)
+            v = f(*[self.ev(c) for c in ch])
+            if v != v:
+                raise Fail("nan")
+            return v
+        if kind == z3.Z3_OP_SELECT:
+            return self.array(ch[0], self.ev(ch[1]))
+        if kind == z3.Z3_OP_ITE:
+            return self.ev(ch[1]) if self.ev(ch[0]) > 0 else self.ev(ch[2])
+        a = [self.ev(c) for c in ch]
+        if kind == z3.Z3_OP_ADD:
+            return sum(a)
+        if kind == z3.Z3_OP_SUB:
+            r = a[0]
+            for x in a[1:]:
+                r -= x
+            return r
+        if kind == z3.Z3_OP_UMINUS:
+            return -a[0]
+        if kind == z3.Z3_OP_MUL:
+            r = 1.0
+            for x in a:
+                r *= x
+            return r
+        if kind in (z3.Z3_OP_DIV, z3.Z3_OP_IDIV):
+            if a[1] == 0:
+                raise Fail("div0")
+            if kind == z3.Z3_OP_IDIV:
+                q = math.floor(a[0] / abs(a[1]))
+                return float(q if a[1] > 0 else -q)
+            return a[0] / a[1]
+        if kind == z3.Z3_OP_MOD:
+            if a[1] == 0:
+                raise Fail("mod0")
+            return float(a[0] - abs(a[1]) * math.floor(a[0] / abs(a[1])))
+        if kind == z3.Z3_OP_TO_REAL:
+            return a[0]
+        if kind == z3.Z3_OP_TO_INT:
+            return float(math.floor(a[0]))
+        if kind == z3.Z3_OP_POWER:
+            return a[0] ** a[1]
+        # booleans as signed margins (positive = true)
+        if kind == z3.Z3_OP_AND:
+            return min(a) if a else 1.0
+        if kind == z3.Z3_OP_OR:
+            return max(a) if a else -1.0
+        if kind == z3.Z3_OP_NOT:
+            return -a[0]
+        if kind == z3.Z3_OP_IMPLIES:
+            return max(-a[0], a[1])
+        if kind in (z3.Z3_OP_LE, z3.Z3_OP_LT):
+            m = a[1] - a[0]
+            s = max(1.0, abs(a[0]), abs(a[1]))
+            if kind == z3.Z3_OP_LT and m == 0:
+                return -1e-12
+            return m / s
+        if kind in (z3.Z3_OP_GE, z3.Z3_OP_GT):
+            m = a[0] - a[1]
+            s = max(1.0, abs(a[0]), abs(a[1]))
+            if kind == z3.Z3_OP_GT and m == 0:
+                return -1e-12
+            return m / s
+        if kind == z3.Z3_OP_EQ:
+            if z3.is_bool(ch[0]):
+                return min(abs(a[0]), abs(a[1])) if (a[0] > 0) == (a[1] > 0) else -min(abs(a[0]), abs(a[1]))
+            s = max(1.0, abs(a[0]), abs(a[1]))
+            return 1e-7 - abs(a[0] - a[1]) / s
+        if kind == z3.Z3_OP_DISTINCT:
+            s = max(1.0, abs(a[0]), abs(a[1]))
+            return abs(a[0] - a[1]) / s - 1e-7
+        raise Fail(f"op {d.name()}")
 
 
-def refute(hyps, goal, tries=400, seed=0, margin=1e-4):
+def refute(hyps, goal, tries=300, seed=0, margin=1e-4):
     """-> dict assignment or None"""
     if isinstance(goal, bool):
         goal = z3.BoolVal(goal)
-    consts = _consts(list(hyps) + [goal])
-    if len(consts) > 60:
+    atoms = _flatten(hyps)
+    consts = _consts(atoms + [goal])
+    if len(consts) > 400:
         return None
+    defs = _find_defs(atoms)
+    free = sorted(n for n, c in consts.items() if n not in defs and not z3.is_array(c))
     rng = random.Random(seed)
-    names = sorted(consts)
     for t in range(tries):
         env = {}
         scale = [1.0, 3.0, 10.0, 100.0][t % 4]
-        for n in names:
+        for n in free:
             c = consts[n]
             if z3.is_int(c):
                 env[n] = float(rng.randint(-3, 8) if t % 2 else rng.randint(0, 5))
@@ -169,14 +299,23 @@ def refute(hyps, goal, tries=400, seed=0, margin=1e-4):
             elif z3.is_bool(c):
                 env[n] = 1.0 if rng.random() < 0.5 else -1.0
             else:
-                return None
-        cache = {}
+                env = None
+                break
+        if env is None:
+            return None
+        E = Evaluator(env, defs, rng)
         try:
-            if any(ev(h, env, cache) < -1e-9 for h in hyps):
+            E.pin(atoms)
+            E.env = dict(env)  # definitions computed during pinning are recomputed with the pinned cells
+            E.cache.clear()
+            if any(E.ev(h) < -1e-6 for h in atoms):
                 continue
-            g = ev(goal, env, cache)
-        except (Fail, OverflowError, ValueError, ZeroDivisionError):
+            g = E.ev(goal)
+        except (Fail, OverflowError, ValueError, ZeroDivisionError, RecursionError):
             continue
         if g < -margin:
-            return {n: (v if not z3.is_bool(consts[n]) else v > 0) for n, v in env.items()} | {"__goal_margin": g}
+            out = {n: (v if not z3.is_bool(consts[n]) else v > 0) for n, v in E.env.items() if n in consts and not n.startswith(("join!", "lem!"))}
+            out["__goal_margin"] = g
+            out["__array_cells"] = {f"{k[0]}[{k[1]}]": v for k, v in list(E.arrays.items())[:40]}
+            return out
     return None
